@@ -63,6 +63,9 @@ theorem x_ringBounds (p : PolyX) : GenXL.Polygon_ringBounds p = .ok (p.map boxOf
   simp only [hm, bind, Except.bind, pure, Except.pure] at h0 ⊢
   rw [h0]
 
+/-- `Polygons()` of the three types, regenerated over `XF`, is `PolygonalX.polygons` -/
+theorem x_Polygons (pg : PolygonalX) : GenXL.Polygonal_Polygons pg = pg.polygons := by cases pg <;> rfl
+
 /-- a ring is skipped by `pointInPolygon`: fewer than 3 vertices, or its box does not overlap the point's -/
 def skipped (pt : PX) (r : RingX) : Prop := r.length ≥ 3 → GenX.Bounds_Overlaps (boxOf r) (ptBox pt) = false
 
@@ -101,6 +104,7 @@ theorem x_pointInPolygon_skipped (os ray : PX → PX → PX → Bool) (pt : PX) 
 theorem x_within_skipped (os ray : PX → PX → PX → Bool) (pt : PX) (pg : PolygonalX)
     (h : ∀ q ∈ pg.polygons, ∀ r ∈ q, skipped pt r) : GenXL.pointInPolygonal os ray pt pg = .ok .outside := by
   unfold GenXL.pointInPolygonal Go.forRange
+  rw [x_Polygons]
   generalize pg.polygons = polys at h ⊢
   generalize (0 : Int) = i
   induction polys generalizing i with
